@@ -69,7 +69,7 @@ Fixpoint run_hist (s : segmenter) (h : list (list Z)) : res segmenter :=
   end.
 
 Definition corr_ok (c : case) : bool :=
-  forallb (fun z => obs_wf_g (obs_of_code z) && obs_wf_l (obs_of_code z)) (k_text c) &&
+  forallb (fun z => obs_wf_g (obs_of_code z) && obs_wf_l (obs_of_code z) && obs_wf_w (obs_of_code z)) (k_text c) &&
   obs_eqb (obs_of_code (k_nul c)) obs_nul && obs_eqb (obs_of_code (k_psep c)) obs_psep &&
   match (do s0 <- run_hist seg_zero (k_hist c); seg_init s0 (map obs_of_code (k_text c))) with
   | Ok s =>
